@@ -51,16 +51,24 @@ Definition same_obs (x y : cobs) : bool :=
   same_bals (list_to_map (co_bal x)) (co_bal y) && same_recs (list_to_map (co_from x)) (co_from y) &&
   same_recs (list_to_map (co_to x)) (co_to y).
 
-Fixpoint p_one (prev : cobs) (steps : list (option err * cobs)) : bool :=
-  match steps with
-  | [] => true
-  | (e, ob) :: t =>
+(* an accepted step moves exactly the balances its balance move names, by exactly the record's amount:
+   the move of the model applied to the implementation's own previous state gives its next balances *)
+Definition exact_move (me adm : N) (prev : cobs) (o : ccop) (ob : cobs) : bool :=
+  match cc_apply (Chan me adm (list_to_map (co_bal prev)) (list_to_map (co_from prev)) (list_to_map (co_to prev))) o with
+  | Ok c' => same_bals (ch_bal c') (co_bal ob)
+  | Err _ => false
+  end.
+
+Fixpoint p_one (me adm : N) (prev : cobs) (os : list ccop) (steps : list (option err * cobs)) : bool :=
+  match os, steps with
+  | o :: r, (e, ob) :: t =>
     (match e with
      | Some _ => same_obs prev ob                                  (* rejected: no effect *)
      | None => (o_spend ob + o_gtot ob =? o_spend prev + o_gtot prev) &&   (* no units created or destroyed *)
                forallb (fun p => legalb (o_phase prev (fst p)) (o_phase ob (fst p))) (co_from prev ++ co_from ob) &&
-               forallb (fun p => 0 <=? snd p) (co_bal ob)
-     end) && p_one ob t
+               forallb (fun p => 0 <=? snd p) (co_bal ob) && exact_move me adm prev o ob
+     end) && p_one me adm ob r t
+  | _, _ => true
   end.
 
 Definition o_giv (o : cobs) (x : N) : Z := bget (list_to_map (co_bal o)) (KGiven, x, 0%N).
@@ -75,7 +83,7 @@ Definition o_inflight (ofrom : cobs) (oto : cobs) (fwd : bool) (to : N) : Z :=
 
 Definition holds (c : case) : bool :=
   match c with
-  | COne me adm init ops steps => p_one (CObs init [] []) steps
+  | COne me adm init ops steps => p_one me adm (CObs init [] []) ops steps
   | CTwo a b _ _ ia ib acts fa fb =>
     (* given-out = held + in flight, in both directions of the pair *)
     ((o_giv fa b - o_giv (CObs ia [] []) b) =?
